@@ -12,13 +12,16 @@ class VMClient(Client):
     name = "vm"
     inline_depth = 8
 
+    def __init__(self, track_builtins=True):
+        self.track_builtins = track_builtins
+
     def tracked(self, ex, path, node, recv, args, st):
         if path == S + "InstructionPointer::bump":
             st.fields[(recv, "0")] = ("sym", next(ex.counter), "ip_after_bump")
             return {"kind": "ip_bump", "args": (recv,), "result": "unit"}
         if path == I + "dispatch_method" and I + "dispatch_method" not in ex.stack and ex.stack and ex.stack[0] != I + "dispatch_method":
             return {"kind": "dispatch", "args": tuple(args), "result": "result", "hint": "dispatch_method"}
-        if path in (I + "dispatch_null_method", I + "dispatch_integer_method", I + "dispatch_boolean_method", I + "dispatch_array_method"):
+        if self.track_builtins and path in (I + "dispatch_null_method", I + "dispatch_integer_method", I + "dispatch_boolean_method", I + "dispatch_array_method"):
             return {"kind": "builtin", "args": (lit(path.rsplit("::", 1)[-1]),) + tuple(args), "result": "result", "hint": "builtin"}
         if path == H + "Heap::allocate":
             return {"kind": "alloc", "args": (recv, args[0]), "result": "sym", "hint": "heap_index"}
